@@ -49,3 +49,7 @@ reg("C11", "other", [L.l_eq, B.l_cover, T.t_bij, PN.s_panic_encode, T.t_width], 
 PROPS["C01"]["rules"] += [L.l_eq, B.l_cover, P.l_propdec]
 PROPS["C07"]["rules"] += [B.l_consume]
 PROPS["C02"]["rules"] += [PN.s_panic_encode, T.t_width]
+import r_raise as RA
+reg("C20", "other", [RA.h_raise, RA.h_order, P.t_props, P.h_proplen, P.h_dup, P.h_bytevals, D.h_dispatch3, PL.h_exactfill, D.h_block, IO.h_noswallow, T.t_codes], "dev", "dev")
+PROPS["C01"]["rules"] += [T.t_varint_readers, PL.s_persist, D.h_dispatch3]
+PROPS["C08"]["rules"] += [T.t_varint_readers, PL.s_persist]
